@@ -7,8 +7,8 @@
              "crypto_aesctr_stream_pre_wholeblock", "crypto_aesctr_stream_post_wholeblock"],
  "annotate": ["crypto/crypto_aesctr.c", "crypto/crypto_aesctr_shared.c"],
  "defines": ["VERIF_HALLOC", "C02_FIXED_OBJ"],
- "matrix": {"BUFMODE": [3]},
- "tier": "thorough",
+ "matrix": {"BUFMODE": [2]},
+ "tier": "experimental",
  "timeout": 1500, "thorough_timeout": 1500,
  "assumptions": ["generic build (no CPUSUPPORT_*): portable path only",
                  "buffer objects <= CTR_MAXLEN (64) bytes; stream position, call length and loop count are unbounded (loop contract)",
